@@ -1,8 +1,9 @@
 (* Extraction for C16: the spec deciders (independent of the generated code). *)
 Require Extraction.
 Require Import ExtrOcamlBasic.
-From Adapt Require Import Num.Qaux Geom.GeomSpec Geom.GeomSpecDec.
+From Adapt Require Import Num.Qaux Geom.GeomSpec Geom.GeomSpecDec Geom.LineSegTypes Geom.LineSegSpec.
 Extraction "c16_spec.ml" spec_vecDir spec_segmentIntersect spec_pointOnLine spec_inPoly
   spec_segmentIntersectPoint spec_rayIntersectPoint
   spec_colinear spec_inBetween spec_cornerSide spec_inValidRegion spec_segmentShapeIntersect spec_manhattanDist spec_projection
-  spec_inPolyGen spec_triangle_region rect_poly rect_orders rect_contains cross.
+  spec_inPolyGen spec_triangle_region rect_poly rect_orders rect_contains cross
+  spec_LineSegment_Intersect spec_lineIntersections ri0.
